@@ -56,18 +56,25 @@ class Profiler:
     enabled = options.args().profile
     # static profiler, global within one process
     profiler = None
+    profiler_pid = None
 
     def __init__(self, is_main=False):
         """Create a profiler."""
         if Profiler.enabled:
             if multiprocessing.parent_process() is None:
-                self.enabled = True
+                self.enabled = is_main
                 self.filename = '.profile.prof'
             else:
                 self.enabled = True
                 self.filename = f'.profile-{os.getpid()}.prof'
+            if Profiler.profiler is not None \
+               and Profiler.profiler_pid != os.getpid():
+                # inherited from the parent process, where it is enabled
+                Profiler.profiler.disable()
+                Profiler.profiler = None
             if Profiler.profiler is None:
                 Profiler.profiler = cProfile.Profile()
+                Profiler.profiler_pid = os.getpid()
 
     def __enter__(self):
         """Start profiling, if ``--profile`` was given."""
